@@ -70,10 +70,18 @@ CONSTANTS
   Weak_SameKeyBothDirections,  \* deriveSecrets ignores locIsLeast (recvSecret = sendSecret)
   Weak_ReadIgnoresAuthError,   \* Read goes on after recvAead.Open failed
   Weak_VerifyWrongKey,         \* the remote signature is verified against the LOCAL public key
-  Weak_NonceAfterTransportWrite \* Write calls incrNonce(sendNonce) only after sc.conn.Write returned nil
+  Weak_NonceAfterTransportWrite, \* Write calls incrNonce(sendNonce) only after sc.conn.Write returned nil
+  Weak_AuthSkipsVerifyForOtherKeyTypes \* the key-type check and the signature check are merged wrongly: a remote key
+                                       \*   that is not ed25519 is accepted WITHOUT any signature verification
 
 Attacker == "M"
 Nobody   == "Z"          \* an identity whose private key nobody holds
+\* The AuthSigMessage carries a tendermint.crypto.PublicKey, a oneof {ed25519, secp256k1}
+\* (crypto/encoding PubKeyFromProto decodes both); MakeSecretConnection accepts ed25519 only.
+OtherKey == "K"          \* a secp256k1 key (M holds its private key and can make valid signatures with it)
+BadKey   == "U"          \* an undecodable key (empty oneof / wrong length): PubKeyFromProto fails
+KeyType(p) == IF p = OtherKey THEN "secp256k1" ELSE IF p = BadKey THEN "undecodable" ELSE "ed25519"
+MPubs == {Attacker, Nobody, OtherKey, BadKey}   \* identities M may present besides the honest ones
 Eph(X)   == "e" \o X
 Peer(X)  == CHOOSE Y \in Honest : Y # X
 LowOrder == {"lowMin", "lowMax"}
@@ -173,6 +181,13 @@ RecvAuthOp(rk, X, s, f, genuine) ==
   ELSE IF ~Opens(rk, X, s, f) THEN
      IF Weak_ReadIgnoresAuthError THEN fail("parse", NextRecvNonce(s)) ELSE fail("decrypt", s.recvNonce)
   ELSE IF f.kind # "auth" THEN fail("parse", NextRecvNonce(s))
+  ELSE IF KeyType(f.pub) = "undecodable" THEN fail("parse", NextRecvNonce(s))          \* cryptoenc.PubKeyFromProto
+  ELSE IF KeyType(f.pub) # "ed25519" /\ ~Weak_AuthSkipsVerifyForOtherKeyTypes
+       THEN fail("keytype", NextRecvNonce(s))                                           \* "expected ed25519 pubkey"
+  ELSE IF KeyType(f.pub) # "ed25519"                                                    \* (weak) no verification at all
+       THEN [s EXCEPT !.pc = "established", !.remPub = f.pub, !.remSig = f.sig,
+                      !.recvNonce = NextRecvNonce(s), !.gen = IF tam THEN @ ELSE @ + 1,
+                      !.last = [tam |-> tam, err |-> "none", n |-> 0]]
   ELSE LET vk   == IF Weak_VerifyWrongKey THEN X ELSE f.pub
            good == f.sig.signer = vk /\ f.sig.msg = Chal(Transcript(rk, Eph(X), s.remEph))
        IN IF ~good THEN fail("challenge", NextRecvNonce(s))
@@ -252,7 +267,8 @@ ReadOp(rk, X, s, size, ib, genuine) ==
 AuthenticatedAt(ss, X) ==
   ss[X].pc = "established" =>
     LET P == ss[X].remPub IN
-    IF P = Attacker THEN ss[X].remSig.signer = Attacker
+    IF KeyType(P) # "ed25519" THEN FALSE        \* only an ed25519 identity may ever be accepted
+    ELSE IF P = Attacker THEN ss[X].remSig.signer = Attacker
     ELSE IF P \in Honest /\ P # X
          THEN /\ ss[P].pc \in {"auth", "established", "failed"}
               /\ ss[P].remEph = Eph(X)
@@ -260,7 +276,8 @@ AuthenticatedAt(ss, X) ==
          ELSE FALSE
 AuthClass(ss, X) ==
   LET P == ss[X].remPub IN
-  IF P = X THEN (IF ss[X].remSig.signer = X THEN "own_identity_reflected" ELSE "own_identity_without_signature")
+  IF KeyType(P) # "ed25519" THEN "key_type_not_accepted:" \o KeyType(P)
+  ELSE IF P = X THEN (IF ss[X].remSig.signer = X THEN "own_identity_reflected" ELSE "own_identity_without_signature")
   ELSE IF P = Attacker THEN "attacker_identity_without_its_signature"
   ELSE IF P \in Honest THEN "honest_identity_from_another_exchange"
   ELSE "identity_nobody_holds"
@@ -459,11 +476,12 @@ MSeenSigs ==  \* signatures in frames M can open, plus those of an earlier sessi
   \cup UNION {{out[Y][i].sig : i \in {j \in 1..Len(out[Y]) : out[Y][j].kind = "auth"}} :
                 Y \in {Z \in Honest : sess[Z].pc # "start" /\ MKnowsDH(DH(Eph(Z), sess[Z].remEph))}}
 MOwnSigs(X) == IF sess[X].remEph = "none" THEN {}
-               ELSE {Sig(Attacker, Chal(Transcript(rank, Eph(X), sess[X].remEph))), Sig(Attacker, OldChal)}
+               ELSE {Sig(Attacker, Chal(Transcript(rank, Eph(X), sess[X].remEph))), Sig(Attacker, OldChal),
+                     Sig(OtherKey, Chal(Transcript(rank, Eph(X), sess[X].remEph)))}   \* valid under the secp256k1 key
 MForge(X, pub, sig, nonce) ==
   /\ HsEdits /\ sess[X].pc = "auth" /\ Open4(X) /\ edits < MaxEdits
   /\ MKnowsDH(DH(Eph(X), sess[X].remEph))
-  /\ pub \in Honest \cup {Attacker, Nobody}
+  /\ pub \in Honest \cup MPubs
   /\ sig \in MSeenSigs \cup MOwnSigs(X)
   /\ nonce \in {0, 1}
   /\ (nonce = 1 => (pub = Attacker /\ sig = Sig(Attacker, Chal(Transcript(rank, Eph(X), sess[X].remEph)))))
@@ -481,7 +499,7 @@ Next ==
      \/ \E e \in MEphs \cup LowPts \cup {Eph(Y) : Y \in Honest} : MEph(X, e)
      \/ MForward(X) \/ MFlip(X) \/ MDrop(X) \/ MSwap(X) \/ MInject(X) \/ MTrunc(X) \/ MEof(X)
      \/ \E i \in 1..(MaxFrames + 1) : MReplay(X, i) \/ MReflect(X, i)
-     \/ \E pub \in Honest \cup {Attacker, Nobody}, sig \in MSeenSigs \cup MOwnSigs(X), nonce \in {0, 1} :
+     \/ \E pub \in Honest \cup MPubs, sig \in MSeenSigs \cup MOwnSigs(X), nonce \in {0, 1} :
           MForge(X, pub, sig, nonce)
 
 Spec == Init /\ [][Next]_vars
